@@ -10,9 +10,12 @@ import (
 	"verif/internal/fw"
 )
 
+// bisimHook reports the scanner-graph complement (set by c05bisim.go in the verif build).
+var bisimHook func(c *fw.Ctx)
+
 func init() {
 	fw.Register(&fw.Check{
-		ID: "C05", Level: "model_checking",
+		ID: "C05", Prepare: c05Prepare, Level: "model_checking",
 		Rule: "documents = JSIGHT + every closed selection of 1..2 (quick) / 1..3 (thorough) blocks of the pool, canonical rendering; each is rewritten by every single rewrite (line comment at end of every directive/paren line, comment line / block comment / blank lines before every eligible line, indentation of every directive line in {0,1,4 spaces,tab}, trailing blanks, file-wide CRLF / CR, quoting of every bare parameter, parenthesising the children of every implicitly nesting directive) and, thorough, by every rewrite kind applied everywhere at once; non-trivial = baseline accepted and rewritten text differs; distinct = distinct (document, rewrite) texts",
 		Assume: []string{"free text (Description bodies) is excluded from re-indentation, comment insertion and newline rewriting as the property says"},
 		Run:    runC05, QuickCap: 6 * time.Minute, ThoroughCap: 30 * time.Minute,
@@ -20,6 +23,9 @@ func init() {
 }
 
 func runC05(c *fw.Ctx) {
+	if c.Shard == 0 && bisimHook != nil {
+		bisimHook(c)
+	}
 	docSets(!c.Quick(), func(name string, blocks []doc.Block) {
 		if c.Expired() {
 			return
@@ -188,4 +194,14 @@ func joinLines(l []string) string {
 		s += x + "\n"
 	}
 	return s
+}
+
+// c05Prepare is replaced by the scanner-graph computation in the verif build.
+var c05PrepareFn func(tier, dir string) error
+
+func c05Prepare(tier, dir string) error {
+	if c05PrepareFn != nil {
+		return c05PrepareFn(tier, dir)
+	}
+	return nil
 }
